@@ -20,7 +20,7 @@ size_t g_b64_g;
 /* DER ghosts of the OpenSSL model (contracts/openssl_model.h) */
 const void *g_der_buf; const struct ECDSA_SIG_st *g_der_sig;
 int g_lib_fail; unsigned g_ver_calls;
-const void *g_rs_buf, *g_rs_r, *g_rs_s; size_t g_rs_rn, g_rs_sn;
+const void *g_rs_buf, *g_rs_r, *g_rs_s; size_t g_rs_rn, g_rs_sn; unsigned g_rs_freed;
 const char *g_jwk_tracked_str;
 const char *g_dec_last_src; const void *g_dec_last_res; int g_dec_last_len;
 /* JWK import ghosts (contracts/jwk_parse_c.h) */
